@@ -932,7 +932,7 @@ func main() {
 		if f.g.describe != nil {
 			caseDesc = " [case " + f.g.describe(c.runIdx) + "]"
 		}
-		what := fmt.Sprintf("%s %s%s at %s on %d-byte input %s%s (%s; %d cases of this run share the fingerprint; %s; budget: alloc <= 64MiB+64*len, time <= %v)",
+		what := fmt.Sprintf("%s %s%s at %s on %d-byte input %s%s (%s; %d cases of this run share the fingerprint; %s; budget: alloc <= 64MiB+64*len (scale families 64MiB+2048*len), time <= %v)",
 			f.g.t.entry+subOf(f.g), f.class, during, f.site, len(in), inputDesc, caseDesc, f.msg, len(c.cands), how, budget)
 		chk.Report(c.fp, what, map[string]interface{}{
 			"entry_point": f.g.t.entry, "sub_case": f.g.t.sub, "universe": f.g.kind + ":" + f.g.label,
@@ -1049,7 +1049,7 @@ func main() {
 			"(thorough: also all pairs of non-overlapping offsets for encodings of 8..48 bytes) and Cut(e) = every strict prefix; " +
 			"signature.Parse: all strings of length <= 4|5 over the 16-symbol grammar alphabet; idl.ParsePackage: all sequences of <= 3|4 of 29 IDL tokens; " +
 			"nesting families in increasing depth 1..64, each up to the first depth that kills its worker. The chunks of a group that produced a failure or a case slower than 300 ms are run after all other groups. A group (entry point x universe x corpus item) is abandoned, and listed, after 16 failing cases or after " +
-			"1 (Bytes/text/token universes; every universe in the quick tier) or 4 (other universes, thorough tier) cases over the time budget. Mut groups are enumerated value-major and the three values that make count-driven loops long (10MiB, 10MiB+1, 0x7fffffff) are scheduled last. Oracle per case: no panic, no fatal error, TotalAlloc delta <= 64MiB + 64*len(input), still running after 10s = violation. " +
+			"1 (Bytes/text/token universes; every universe in the quick tier) or 4 (other universes, thorough tier) cases over the time budget. Mut groups are enumerated value-major and the three values that make count-driven loops long (10MiB, 10MiB+1, 0x7fffffff) are scheduled last. Oracle per case: no panic, no fatal error, TotalAlloc delta <= 64MiB + 64*len(input) (scale families - 1 000 to 30 000 repetitions of a method, action, struct member, interface or enum constant, parsers only, no use step - 64MiB + 2048*len and 4 s instead of 10 s: the unchanged parsers take 0.1-0.8 s), still running after 10s = violation. " +
 			"USE step (checks/c07/use.go; key 'use_step'): every case of every universe above that its entry point ACCEPTS (nil error; count-0 maps and lists, empty strings and the minimal encodings are in the Bytes, Mut, Cut and corpus universes) is followed, inside the same worker and under the same budgets, by a use of the returned value the way the repository's consumers use it: " +
 			"a returned map must be non-nil and accept a store (capability map: SetAuthenticated as bus.authenticateCall does, the three maps of a meta-object, every map reached in a value filled by the reflection decoder), a returned interface or pointer must not be nil, a value.Value must answer Signature() and Write(), a message / meta-object / object reference / service info / capability map must be written back by the repository's writer, the bytes of a signature reader must wrap into value.Opaque, " +
 			"a signature.Type must print (Signature, SignatureIDL, TypeName), build its Marshal / Unmarshal statements, answer Reader() (and that reader must take an empty stream) and Type(), and register to a type set; the types of an IDL package must print, register and give the meta-object of every interface, the meta-objects of ParseIDL must pass the meta-object use; nil slices are not defects. " +
